@@ -192,12 +192,21 @@ def check(run, model, tier):
             k = 'super'
         elif '(chart, e)' in t:
             k = 'callback'
+        elif t.startswith('status =') and not s_.startswith('    '):
+            k = 'init'
+        elif t == 'status = return_status.HANDLED':
+            k = 'handled'
         elif t.startswith('status ='):
-            k = 'init' if not s_.startswith('    ') else 'handled'
+            k = 'other-assign'
         else:
             raise AnalysisError('to_code: unclassified fragment %r' % s_)
         classes.setdefault(k, set()).add(s_)
     need = ('decorator', 'def', 'init', 'if', 'elif', 'else', 'return', 'super', 'callback', 'handled')
+    if 'super' not in classes or 'other-assign' in classes:
+        run.inst('CODEGEN.fragments', tc, 'to_code emits an else arm that moves the cursor to the parent', False,
+                 'to_code emits no fragment of the form `status, chart.temp.fun = return_status.SUPER, <parent>` (found instead: %s): the generated handler '
+                 'answers SUPER without telling the processor which state is its parent' % sorted(classes.get('other-assign', [])), obligation=True)
+        return
     missing = [k for k in need if k not in classes]
     amb = [k for k, v in classes.items() if len(v) != 1]
     if missing or amb:
